@@ -193,4 +193,16 @@ theorem sort_reorder_directives_invariant (order : List String) (l l' : List Rou
 example : AllOrdered Gen.defaultDirectiveOrder [⟨"respond", true, 1, [str "/a"]⟩, ⟨"header", true, 0, []⟩] := by
   intro x hx; simp at hx; rcases hx with rfl | rfl <;> decide
 
+/-- the property's quantifier "all permutations of distinct-directive lines": when no two
+values have the same kind, EVERY permutation of the block sorts to the same result -/
+theorem sort_perm_invariant_of_distinct (order : List String) (l l' : List RouteVal)
+    (hl : l.length ≤ blockSize) (hp : l.Perm l') (hd : (l.map (kindOf order)).Nodup) :
+    sortRoutes (less order) l = sortRoutes (less order) l' := by
+  refine sort_cross_kind_invariant_partial order l l' hl (hp.length_eq ▸ hl) ?_
+  intro c
+  exact perm_eq_of_length_le_one _ _ (hp.filter _) (filter_kind_length_le_one (kindOf order) c l hd)
+
+example : ([⟨"respond", true, 0, []⟩, ⟨"header", true, 0, []⟩, ⟨"root", true, 0, []⟩].map
+    (kindOf Gen.defaultDirectiveOrder)).Nodup := by decide
+
 end CaddyModel.C16
